@@ -1,0 +1,11 @@
+//! C34: access to the private jitter function of the staggered DNS lookups.
+
+/// Calls the private `dns::add_jitter` with the given delay (milliseconds).
+#[cfg(not(wasm_browser))]
+pub fn add_jitter(delay_ms: u64) -> std::time::Duration {
+    crate::dns::verif_add_jitter(delay_ms)
+}
+
+/// The private `dns::MAX_JITTER_PERCENT` as compiled.
+#[cfg(not(wasm_browser))]
+pub const MAX_JITTER_PERCENT: u64 = crate::dns::VERIF_MAX_JITTER_PERCENT;
